@@ -38,6 +38,8 @@ def templates():
         out.append(("F2", cap, [R + "recvto 8", S + "trysend 1 ; trysend 2"]))
         out.append(("F2", cap, [S + "sendoptto 1 8 ; sendoptto 2 8", R + "recvto 8"]))
         out.append(("F2", cap, [S + "trysend 7 ; sendto 1 8", "close"]))
+        out.append(("F2", cap, [S + "trysend 7 ; sendoptto 1 8", "close"]))
+        out.append(("F2", cap, [S + "trysend 7 ; sendoptto 1 8", "drops ; dropr"]))
         out.append(("F2", cap, [R + "recvto 8", "close"]))
         out.append(("F2", cap, [R + "recvto 8", "dropr ; drops"]))
         out.append(("F2", cap, [S + "trysend 7 ; sendto 1 8", "drops ; dropr"]))
@@ -48,6 +50,11 @@ def templates():
         out.append(("F3", cap, [S + pre + "send 1", "drops ; dropr", "drops ; dropr"]))
         out.append(("F3", cap, [S + pre + "send 1", R + "tryrecvrt", "drops ; dropr"]))
         out.append(("F3", cap, [R + "recv", "dropr ; drops"]))
+        # a pending future re-polled with another waker while the channel is being closed / the other side leaves
+        out.append(("F3", cap, [S + pre + "mksend 1 1 ; poll 1 1 ; poll 1 2 ; poll 1 2", "close"]))
+        out.append(("F3", cap, [S + pre + "mksend 1 1 ; poll 1 1 ; poll 1 2 ; poll 1 2", "drops ; dropr"]))
+        out.append(("F3", cap, [R + "mkrecv 1 ; poll 1 1 ; poll 1 2 ; poll 1 2", "close"]))
+        out.append(("F3", cap, [R + "mkrecv 1 ; poll 1 1 ; poll 1 2 ; poll 1 2", "dropr ; drops"]))
         # a blocked sender, the last receiver going away, and another sender arriving at that moment
         out.append(("F3", cap, [S + pre + "send 1", "drops ; dropr", S + "sendto 2 6"]))
         out.append(("F3", cap, [S + pre + "mksend 1 1 ; poll 1 1 ; poll 1 1", "drops ; dropr", S + "send 2"]))
